@@ -300,7 +300,7 @@ def optRat? (l : Line) (k : String) : Option (Option Rat) :=
   | some _ => (l.rat? k).map some
   | none => none
 
-/-- `pdhgacc A= At= ff=<fspec> gf=<fspec> tau= sigma= theta= gp=<rat>|none gd=<rat>|none x0= [xr= y=] n=` -/
+/-- `pdhgacc A= At= ff=<fspec> gf=<fspec> tau= sigma= theta= gp=<rat>|none gd=<rat>|none x0= [xr= y=] [sq=1] n=` -/
 def doPdhgAcc (l : Line) : Option String := do
   let A ← Line.matR? l "A"
   let At ← Line.matR? l "At"
@@ -324,8 +324,9 @@ def doPdhgAcc (l : Line) : Option String := do
   let y ← match l.get? "y" with
     | none => some none
     | some _ => (l.rats? "y").map some
+  let sq := l.get? "sq" = some "1"     -- the non-linear operator `x ↦ A (x ⊙ x)`, see `nlOp`
   let P : PdhgAccP Rat RV RV :=
-    ⟨A.mulVec, fun _ => At.mulVec, fun s => (ff.prox s).eval, fun s => (gf.cprox s).eval, gp, gd, ratSqrt⟩
+    ⟨nlOp sq A, nlAdj sq At, fun s => (ff.prox s).eval, fun s => (gf.cprox s).eval, gp, gd, ratSqrt⟩
   let (s, log) := runLog P.step (·.x) n (P.init x0 xr y (Vec.zero dw) tau sigma theta (junk dv) (junk dw)) []
   some s!"ok log={showLog log} x={showVec s.x} xr={showVec s.xRelax} y={showVec s.y} tau={showRat s.tau} sigma={showRat s.sigma}"
 
